@@ -67,7 +67,18 @@ const (
 type interp struct {
 	env  Env
 	prev *ssa.BasicBlock
-	why  string
+	// cameFrom records, for every block entered on this run, the predecessor it
+	// was entered from, so that a phi of an earlier block (nested && / ||) is
+	// resolved by the edge actually taken.
+	cameFrom map[*ssa.BasicBlock]*ssa.BasicBlock
+	why      string
+}
+
+func (it *interp) predFor(b *ssa.BasicBlock) *ssa.BasicBlock {
+	if p, ok := it.cameFrom[b]; ok {
+		return p
+	}
+	return it.prev
 }
 
 func (it *interp) intVal(v ssa.Value) (int64, bool) {
@@ -83,8 +94,9 @@ func (it *interp) intVal(v ssa.Value) (int64, bool) {
 	case *ssa.ChangeType:
 		return it.intVal(x.X)
 	case *ssa.Phi:
+		from := it.predFor(x.Block())
 		for i, p := range x.Block().Preds {
-			if p == it.prev {
+			if p == from {
 				return it.intVal(x.Edges[i])
 			}
 		}
@@ -131,8 +143,9 @@ func (it *interp) boolVal(v ssa.Value) tri {
 			return tUnknown
 		}
 	case *ssa.Phi:
+		from := it.predFor(x.Block())
 		for i, p := range x.Block().Preds {
-			if p == it.prev {
+			if p == from {
 				return it.boolVal(x.Edges[i])
 			}
 		}
@@ -246,7 +259,7 @@ func AbstractResult(v ssa.Value) string {
 
 // Interpret runs fn under env.
 func Interpret(fn *ssa.Function, env Env, opts InterpOpts) Outcome {
-	it := &interp{env: env}
+	it := &interp{env: env, cameFrom: map[*ssa.BasicBlock]*ssa.BasicBlock{}}
 	transparent := append(append([]string{}, defaultTransparent...), opts.Transparent...)
 	isTransparent := func(n string) bool {
 		for _, g := range transparent {
@@ -342,10 +355,12 @@ func Interpret(fn *ssa.Function, env Env, opts InterpOpts) Outcome {
 				} else {
 					b = b.Succs[1]
 				}
+				it.cameFrom[b] = it.prev
 				goto next
 			case *ssa.Jump:
 				it.prev = b
 				b = b.Succs[0]
+				it.cameFrom[b] = it.prev
 				goto next
 			case *ssa.RunDefers:
 				continue
